@@ -314,10 +314,16 @@ def _limit_driver():
     resource.setrlimit(resource.RLIMIT_AS, (12 * 2**30, 12 * 2**30))
 
 
+DRIVER_COMMANDS = {}
+
+
 def driver_batch(lines, timeout=900):
     """Send all request lines to ngdriver, return the reply lines (same length)."""
     if not lines:
         return []
+    for ln in lines:
+        c = ln.split(" ", 1)[0]
+        DRIVER_COMMANDS[c] = DRIVER_COMMANDS.get(c, 0) + 1
     data = ("\n".join(lines) + "\n").encode()
     try:
         p = subprocess.run([paths.DRIVER], input=data, stdout=subprocess.PIPE, stderr=subprocess.PIPE,
@@ -510,6 +516,19 @@ def run_check(prop, tier, seed, module, replay=None):
                     module.run(ctx)
             except DriverError as exc:
                 ctx.tie_breaks.append(f"driver(search):{exc}")
+    # which model entry points the correspondence run really exercised (requests per driver command); a command the
+    # property's policy expects (lean/linkage.json) and that was never sent means a tie that silently lapsed
+    ctx.stats["driver_requests_by_command"] = dict(sorted(DRIVER_COMMANDS.items()))
+    if replay is None and ctx.driver_ok:
+        try:
+            with open(os.path.join(paths.LEAN, "linkage.json")) as f:
+                expected = json.load(f).get("expected_commands", {}).get(prop, [])
+        except (OSError, ValueError):
+            expected = []
+        for c in expected:
+            if not DRIVER_COMMANDS.get(c):
+                ctx.tie_breaks.append(f"linkage:the correspondence '{c}' was never exercised in this run "
+                                      f"(no request sent to the driver)")
     # known findings: replayed explicitly by the module on every run
     for key, what in ctx.known_hits:
         print(f"KNOWN-FINDING: property={prop} {key}: {what}")
